@@ -319,6 +319,23 @@ def body(chk, db, cfgname):
             ftype = f.nodes[n["args"][2]].get("t", "")
             bodies = [x for x in db.fns.values() if ftype and ftype in x.qn and x.qn.startswith(f.qn) and any(m["k"] == "return" and m.get("sub") is not None and
                       x.nodes[m["sub"]]["k"] == "bin" for m in x.nodes)]
+            # a closure as comparator: its call operator is a function of its own
+            an = f.nodes[n["args"][2]]
+            for _ in range(4):
+                if an["k"] == "construct" and an.get("args"):
+                    an = f.nodes[an["args"][0]]
+                elif an["k"] == "cast":
+                    an = f.nodes[an["sub"]]
+                else:
+                    break
+            if not bodies and an["k"] == "call" and an.get("lambda") and an.get("cm") in db.fns:
+                bodies = [db.fns[an["cm"]]]
+            if not bodies and an["k"] == "ref" and an.get("dk") == "local" and ctx.decls.get(an["d"], {}).get("init") is not None:
+                ln = f.nodes[ctx.decls[an["d"]]["init"]]
+                while ln["k"] in ("construct", "cast") and (ln.get("args") or ln.get("sub") is not None):
+                    ln = f.nodes[ln["args"][0] if ln["k"] == "construct" else ln["sub"]]
+                if ln["k"] == "call" and ln.get("lambda") and ln.get("cm") in db.fns:
+                    bodies = [db.fns[ln["cm"]]]
             site = "%s:sort-comparator" % f.qn
             if not bodies:
                 raise AnalysisBroken("%s: comparator body for %s not found" % (f.qn, ftype))
@@ -479,7 +496,8 @@ def check_pool(r6, db, cfgname, sp, runs):
                 fa = at.get(f.cfg.pos1(j), frozenset())
                 base = at.get(f.cfg.pos1(f.nodes[L[0]]["init"]), frozenset()) if f.nodes[L[0]].get("init") is not None else frozenset()
                 extra = [x for x in fa if x not in base and key_contains(x, lambda y: y[:2] == v[:2]) and not (x[0] == "<" and x[1][:2] == v[:2])
-                         and not (x[0] == "!=" and key_contains(x, lambda y: y[0] == "mcall" and y[1] == "boost::mpi::communicator::rank"))]
+                         and not (x[0] == "!=" and key_contains(x, lambda y: y[0] == "mcall" and y[1] == "boost::mpi::communicator::rank"))
+                         and not (x[0] == "true" and x[1][0] == "op" and x[1][1] == "||" and bk in x[1][2:] and key_contains(x[1], lambda y: y[0] == "mcall" and y[1] == "boost::mpi::communicator::rank"))]
                 if extra:
                     why = "ranks are enrolled only under the extra condition %s" % fact_str(extra[0])
                     continue
